@@ -389,6 +389,87 @@ func init() {
 	}
 
 	// programs with acting custom operands in every kind of operand position
+	// by copy: handlers that return ONE container object every time, and a stream parser that returns ONE groups slice every time;
+	// what the script does to the value it got must not reach the handler's object nor later evaluations, and every handler call must
+	// see the text and groups of its own operand
+	subcmds["c17-copy"] = func(args []string) int {
+		fs := newFlags("c17-copy")
+		out := fs.String("out", "", "events ndjson")
+		fs.Parse(args)
+		w := newNDWriter(*out)
+		defer w.Close()
+		type probe struct{ kind, setup, src, want string }
+		probes := []probe{
+			{"array", "", "va = QQ; va[0] = 9; QQ", `[1, 2]`}, {"array", "", "va = QQ; va.push(7); va.pop(); va.push(8); QQ", `[1, 2]`},
+			{"array", "", "va = QQ; vw = QQ; va[1] = 5; vw", `[1, 2]`}, {"array", "", "func g7() { QQ }; va = g7(); va[0] = 3; g7()", `[1, 2]`},
+			{"nested", "", "va = QN; va[1][0] = 9; QN", `[1, [2, 3]]`}, {"nested", "", "va = QN; va[1].push(4); QN", `[1, [2, 3]]`},
+			{"dict", "", "va = QD; va.k = 9; vw = QD; vw", `{'k': 1}`}, {"dict", "", "va = QD; va.zz = 1; vw = QD; vw", `{'k': 1}`},
+		}
+		for _, pr := range probes {
+			vm := ds.NewVM()
+			arr := ds.NewArrayVal(ds.NewIntVal(1), ds.NewIntVal(2))
+			nested := ds.NewArrayVal(ds.NewIntVal(1), ds.NewArrayVal(ds.NewIntVal(2), ds.NewIntVal(3)))
+			dict := ds.NewDictVal(nil)
+			dict.Store("k", ds.NewIntVal(1))
+			_ = vm.RegCustomDice(`QQ`, func(ctx *ds.Context, groups []string, payload any) (*ds.VMValue, string, error) { return arr, "", nil })
+			_ = vm.RegCustomDice(`QN`, func(ctx *ds.Context, groups []string, payload any) (*ds.VMValue, string, error) {
+				return nested, "", nil
+			})
+			_ = vm.RegCustomDice(`QD`, func(ctx *ds.Context, groups []string, payload any) (*ds.VMValue, string, error) {
+				return dict.V(), "", nil
+			})
+			ev := map[string]any{"ev": "c17c", "kind": pr.kind, "src": pr.src, "err": false, "got": "", "want": pr.want, "handlerObject": "", "handlerWant": "", "texts": []string{}, "wantTexts": []string{}}
+			if err, pan := runOne(vm, pr.src); err != nil || pan != nil || vm.RestInput != "" {
+				ev["err"] = true
+				ev["got"] = fmt.Sprint(err, pan, vm.RestInput)
+			} else {
+				ev["got"] = vm.Ret.ToString()
+			}
+			switch pr.kind {
+			case "array":
+				ev["handlerObject"], ev["handlerWant"] = arr.ToString(), "[1, 2]"
+			case "nested":
+				ev["handlerObject"], ev["handlerWant"] = nested.ToString(), "[1, [2, 3]]"
+			case "dict":
+				ev["handlerObject"], ev["handlerWant"] = dict.V().ToString(), "{'k': 1}"
+			}
+			w.Write(ev)
+		}
+		// one groups slice for every match, first element left empty ("use the matched text")
+		{
+			vm := ds.NewVM()
+			groups := []string{"", "tag"}
+			var seen []string
+			_ = vm.RegCustomDiceParser(func(ctx *ds.Context, s *ds.CustomDiceStream) (*ds.CustomDiceParseResult, error) {
+				if r, ok := s.Read(); !ok || r != 'S' {
+					return nil, nil
+				}
+				if _, ok := s.ReadDigits(); !ok {
+					return nil, nil
+				}
+				groups[0] = ""
+				return &ds.CustomDiceParseResult{Matched: true, Groups: groups}, nil
+			}, func(ctx *ds.Context, g []string, payload any) (*ds.VMValue, string, error) {
+				seen = append(seen, g[0])
+				return ds.NewIntVal(1), "", nil
+			})
+			src := "S1 + S22 + S333"
+			ev := map[string]any{"ev": "c17c", "kind": "groups", "src": src, "err": false, "got": "", "want": "3", "handlerObject": "", "handlerWant": "", "texts": []string{}, "wantTexts": []string{"S1", "S22", "S333"}}
+			if err, pan := runOne(vm, src); err != nil || pan != nil {
+				ev["err"] = true
+			} else {
+				ev["got"] = vm.Ret.ToString()
+			}
+			if seen == nil {
+				seen = []string{}
+			}
+			ev["texts"] = seen
+			w.Write(ev)
+		}
+		emitSummary(map[string]any{"probes": len(probes) + 1})
+		return 0
+	}
+
 	subcmds["c17-protocol"] = func(args []string) int {
 		fs := newFlags("c17-protocol")
 		out := fs.String("out", "", "events ndjson")
